@@ -578,7 +578,10 @@ class Forcing(BaseForce):
             if hasattr(nc.variables[key], "scale_factor"):
                 self.scaled[key] = True
                 self.scale_factor[key] = np.float32(nc.variables[key].scale_factor)
-                self.add_offset[key] = np.float32(nc.variables[key].add_offset)
+                # add_offset is optional (CF), default zero
+                self.add_offset[key] = np.float32(
+                    getattr(nc.variables[key], "add_offset", 0.0)
+                )
             else:
                 self.scaled[key] = False
 
@@ -608,6 +611,7 @@ class Forcing(BaseForce):
         # Assume offset = 0 for velocity
         if self.scaled["u"]:
             U = self.scale_factor["u"] * U
+        if self.scaled["v"]:
             V = self.scale_factor["v"] * V
             # U = self.add_offset['u'] + self.scale_factor['u']*U
             # V = self.add_offset['v'] + self.scale_factor['v']*V
